@@ -180,6 +180,30 @@ class TransformProfile(HeapProfile):
         if not methods:
             spec = draw_mesh_spec(rng, geo, ndim, cfg["max_cells"], cfg["max_subs"])
             return dict(spec, op="Mesh.new", out=out)
+        if h.kind == "M" and m.subs and rng.random() < cfg["p_reject"] * 0.35:
+            # extreme but well-formed arguments: 2**e cells away / 2**-e as factor, e around the 52
+            # mantissa bits, where a one-cell subregion collapses by rounding and the region does not
+            method = rng.choice(methods)
+            ax = rng.randrange(reg.ndim)
+            c = float(m.cell[ax])
+            e = rng.randint(48, 58)
+            far = [float(x) for x in reg.center]
+            far[ax] += rng.choice([-1, 1]) * c * 2.0**e
+            if method == "translate":
+                v = [0.0] * reg.ndim
+                v[ax] = rng.choice([-1, 1]) * c * 2.0**e
+                o = {"op": "collapse", "on": s, "method": method, "args": [v], "kwargs": {}}
+            elif method == "scale":
+                o = {"op": "collapse", "on": s, "method": method, "args": [rng.choice([2.0**-e, 2.0, 0.5])], "kwargs": {}}
+                if o["args"][0] in (2.0, 0.5) or rng.random() < 0.3:
+                    o["kwargs"] = {"reference_point": far}
+            elif reg.ndim >= 2 and not st.fields_on(h.box):
+                a, b = rng.sample(list(reg.dims), 2)
+                o = {"op": "collapse", "on": s, "method": method, "args": [a, b], "kwargs": {"k": rng.choice([1, 2, 3]), "reference_point": far}}
+            else:
+                o = None
+            if o is not None:
+                return dict(o, fault="rejected_args")
         if rng.random() < cfg["p_reject"]:
             unm = None
             if h.kind == "F" and h.fm.nvdim > 1:
